@@ -3,6 +3,8 @@ CONSTANTS N = 4
   Ports <- MCPorts
   MissLens <- MCMissLens
   MaxLens <- MCMaxLens
+  ListsPO <- MCListsPO
+  ListsFM <- MCListsFM
   D = 60
 INIT Init
 NEXT Next
